@@ -160,15 +160,21 @@ class LinkPair:
                 ev["same_obj"] = len(buf) == len(before)
         return ev
 
-    def stream(self, bufs, ask_no_ack=False):
-        """the examples' streaming idiom: queue payloads with write(write_only=True) while CE is low, then raise CE"""
+    def stream(self, bufs, ask_no_ack=False, while_listening=False):
+        """the examples' streaming idiom: queue payloads with write(write_only=True) while CE is low, then raise CE
+        (while_listening: the answers are queued while the radio is still in RX mode, then `listen = False`, then CE)"""
         n0 = len(self.air.log)
         self.s.deadline = self.s.now + 3_000_000_000
         exc, rets = "none", []
         try:
+            if while_listening:
+                self.tx.listen = True
+                self.s.advance(300_000)
             self.tx.ce_pin = False
             for b in bufs:
                 rets.append(bool(self.tx.write(b, ask_no_ack=ask_no_ack, write_only=True)))
+            if while_listening:
+                self.tx.listen = False
             self.tx.ce_pin = True
         except sim.WatchdogExpired:
             exc = "Hang"
